@@ -45,6 +45,8 @@ static GLOBAL: exec::SeamAlloc = exec::SeamAlloc;
 fn make_plan(src: &str, base: u64, i: u64) -> Plan {
     if src == "sys" {
         plan::systematic(i)
+    } else if let Some(ops) = src.strip_prefix("soak:") {
+        plan::soak(i, ops.parse().unwrap_or(1000))
     } else {
         plan::generate(run_seed(base, i))
     }
@@ -457,6 +459,19 @@ fn minimise(mut plans: Vec<Plan>, kind: &str, known: &[String]) -> (Vec<Plan>, u
                     }
                 }
             }
+            if plans[pi].repeat > 1 {
+                let rp = plans[pi].repeat;
+                for r in [1, rp / 2, rp - rp / 4, rp - 1] {
+                    if r >= 1 && r < plans[pi].repeat {
+                        let mut c = plans.clone();
+                        c[pi].repeat = r;
+                        if check(&c, &mut tried) {
+                            plans = c;
+                            changed = true;
+                        }
+                    }
+                }
+            }
             if plans[pi].alloc_seams {
                 let mut c = plans.clone();
                 c[pi].alloc_seams = false;
@@ -545,6 +560,9 @@ fn batch(args: &[String]) -> i32 {
     if src == "sys" {
         runs = plan::sys_total(); // the bounded space is always enumerated completely
     }
+    if src.starts_with("soak:") {
+        runs = plan::soak_total(); // one long single-thread history per type, each in a process of its own
+    }
     let jobs: u64 = arg(args, "--jobs").and_then(|s| s.parse().ok()).unwrap_or(16).max(1);
     let tier = arg(args, "--tier").unwrap_or_else(|| "quick".into());
     let part = arg(args, "--part").unwrap_or_else(|| "part.json".into());
@@ -580,7 +598,13 @@ fn batch(args: &[String]) -> i32 {
             None => break,
         }
     }
-    let recheck_n = if arg(args, "--chunk").is_some() { runs.min(300) } else { runs.min(2000) };
+    let recheck_n = if src.starts_with("soak:") {
+        1
+    } else if arg(args, "--chunk").is_some() {
+        runs.min(300)
+    } else {
+        runs.min(2000)
+    };
     let mut total = RunStats::default();
     let (mut nruns, mut nontrivial_runs, mut fault_then) = (0u64, 0u64, 0u64);
     let mut traces = BTreeSet::new();
@@ -677,7 +701,9 @@ fn batch(args: &[String]) -> i32 {
         let final_v = final_run
             .and_then(|r| r.violations.into_iter().find(|x| x.kind == v.kind))
             .unwrap_or(v.clone());
-        let path = if src == "sys" {
+        let path = if src.starts_with("soak:") {
+            format!("{}/C15-{}-soak-{}.json", replay_dir, amt::BACKEND, idx)
+        } else if src == "sys" {
             format!("{}/C15-{}-systematic-{}.json", replay_dir, amt::BACKEND, idx)
         } else {
             format!("{}/C15-{}-seed{}-run{}.json", replay_dir, amt::BACKEND, seed, idx)
@@ -742,7 +768,7 @@ fn batch(args: &[String]) -> i32 {
     std::fs::write(&part, serde_json::to_string_pretty(&partv).unwrap()).expect("write part");
     println!(
         "[{}{}] runs={} ops={} judged={} seams={} switches_in_display={} faults(err/panic/nested)={}/{}/{} distinct_nontrivial_runs={} wall={:.1}s",
-        amt::BACKEND, if src == "sys" { " systematic" } else { "" }, nruns, total.ops, total.judged, total.seams, total.switches_inside_op,
+        amt::BACKEND, if src == "sys" { " systematic" } else if src.starts_with("soak:") { " soak" } else { "" }, nruns, total.ops, total.judged, total.seams, total.switches_inside_op,
         total.sink_error_fired, total.sink_panic_fired, total.nested_fired, traces.len(), wall
     );
     exit
